@@ -204,16 +204,36 @@ func ZZ_C04_aged_reuse() {
 	s.w.Store.Clients["C1"] = &fosite.DefaultClient{ID: "C1", Public: true, GrantTypes: []string{"authorization_code", "refresh_token"},
 		RedirectURIs: []string{"https://cx.example/cb"}, ResponseTypes: []string{"code"}, Scopes: []string{"offline", "photos"}}
 	s.start(0, zz.Choice("origin", 2))
+	// symbolic clock advances that stay 4 s clear of the expiry instant of every token issued so far (the native
+	// clock drifts by milliseconds between calls; what happens AT the instant is C07's subject)
+	elapsed := time.Duration(0)
+	issuedAt := []time.Duration{0}
+	advance := func() {
+		d := time.Duration(zz.Int("advance", 0, int64(45*24*time.Hour)))
+		if zz.Symbolic() {
+			for _, o := range issuedAt {
+				for _, life := range []time.Duration{atLife, rtLife} {
+					zz.Assume(zz.Or(elapsed+d < o+life-4*time.Second, elapsed+d > o+life+4*time.Second))
+				}
+			}
+		}
+		zz.Advance(d)
+		elapsed += d
+	}
 	rounds := 1
 	if zz.Thorough() {
 		rounds = 2
 	}
 	for i := 0; i < rounds; i++ {
-		zz.Advance(time.Duration(zz.Int("advance", 0, int64(45*24*time.Hour))))
+		advance()
+		n := len(s.l.Toks)
 		s.refresh(s.latestRefresh(0).Val, "c1")
+		if len(s.l.Toks) > n {
+			issuedAt = append(issuedAt, elapsed)
+		}
 		s.sweep("after aged rotation")
 	}
-	zz.Advance(time.Duration(zz.Int("advance", 0, int64(45*24*time.Hour))))
+	advance()
 	val := s.pickToken()
 	c := []string{"c1", "C1"}[zz.Choice("presenter", 2)]
 	s.refresh(val, c)
